@@ -982,7 +982,13 @@ func (t *TraefikOidc) handleCallback(rw http.ResponseWriter, req *http.Request, 
 	tokenResponse, err := t.tokenExchanger.ExchangeCodeForToken(req.Context(), "authorization_code", code, redirectURL, codeVerifier)
 	if err != nil {
 		t.logger.Errorf("Failed to exchange code for token during callback: %v", err)
-		t.sendErrorResponse(rw, req, "Authentication failed: Could not exchange code for token", http.StatusInternalServerError)
+		// A code the provider itself refuses (4xx from the token endpoint) is a bad request
+		// from the client, not a server failure.
+		status := http.StatusInternalServerError
+		if strings.Contains(err.Error(), "token endpoint returned status 4") {
+			status = http.StatusBadRequest
+		}
+		t.sendErrorResponse(rw, req, "Authentication failed: Could not exchange code for token", status)
 		return
 	}
 
